@@ -287,6 +287,9 @@ func NewFromYaml(data []byte) (*Config, error) {
 
 	if c.ProfileAddress == "" && yc.ProfilePort > 0 {
 		c.ProfileAddress = net.JoinHostPort(yc.ProfileHost, strconv.Itoa(yc.ProfilePort))
+	} else if c.ProfileAddress == "none" {
+		// Profiling explicitly disabled, same as the command line flag.
+		c.ProfileAddress = ""
 	}
 
 	if c.MetricsDurationBuckets != nil {
